@@ -158,6 +158,8 @@ M = {
     "proto-drop-nan-intermediate": ("optuna/storages/_grpc/servicer.py",
         "        intermediate_values={step: value for step, value in trial.intermediate_values.items()},\n    )\n\n\ndef _from_proto_trial",
         "        intermediate_values={step: value for step, value in trial.intermediate_values.items() if value == value},\n    )\n\n\ndef _from_proto_trial", ["C01"]),
+    "mem-unfix-waiting-cursor": ("optuna/storages/_in_memory.py",
+        "                if state == TrialState.WAITING:\n", "                if False:\n", ["C01"]),
 }
 
 
